@@ -269,6 +269,7 @@ impl Monitor for C14 {
             "former_admin_calls",
             "non_admin_calls",
             "stake_admin_calls_ok",
+            "stake_hook_calls_sent_by_a_hook_contract",
             "stake_non_admin_calls_rejected",
             "stake_hook_deliveries_checked",
         ]
